@@ -221,9 +221,15 @@ func TestVerifC04(t *testing.T) {
 					if o > follower[f] {
 						follower[f] = o
 					}
+					caughtBefore := v.lastCaughtUp(f)
 					v.follower(f, o)
 					stats["step/follower"]++
 					observe(vM{"op": "follower", "r": f, "o": o})
+					// "caught up" (what keeps a replica in the ISR, and brings it back) is said by the replica's own
+					// request: one that reports less than the log end leaves the mark where it was, whatever is sent back
+					if o < nw && v.lastCaughtUp(f).After(caughtBefore) {
+						setViol("caught-up-without-reporting-the-log-end", fmt.Sprintf("replica %s reported offset %d of a log that ends at %d; the leader sent it the rest and marked it as caught up although it has not said that it stored anything beyond %d", f, o, nw, o))
+					}
 				case 5:
 					// a replication request that was sent under an earlier leader epoch arrives late: it says that
 					// the replica has everything; the leader must not take its offset for the replica's progress
